@@ -29,7 +29,7 @@ PROPS = {
         "get_request is proved to hand back the same request object (the counter is never reset); DummyFailureManager.recover is proved never to return "
         "and to raise the very exception it was given; the try statement of the @recoverable wrapper is proved to call failure_manager.recover exactly "
         "once for a generic failure, never for cancellation/interrupt/unrecoverable exceptions, and never to swallow an exception raised by recover. "
-        "NOT decided: that the workflow raises 'instead of hanging' (liveness), and the call sites of get_request/_update_request in _recover.",
+        "NOT decided: that the workflow raises 'instead of hanging' (liveness), and the call sites of get_request/_update_request in _recover. Added after a second round of seeded changes: RollbackFailureManager._synchronize_workflows is proved to preserve the class invariant version <= max_retries for EVERY registered request and never to lower a count (the upstream jobs a failure drags along are counted through _update_request like the failed one), and _reduce_statuses is proved to return FAILED whenever a FAILED job status is not preceded by a CANCELLED one (a failed job fails its step; match statement supported by the generator).",
         "assumptions": [
             "assumed contracts: Scheduler.notify_status (ghost notification counter), FailureManager.recover and the wrapped coroutine `func` (ghost counters; one representative exception class per except clause), asyncio.Lock()",
             "recoverable.wrapper: only its try statement is verified (mechanically extracted); the argument-discovery statements before it are dropped and `step`, `job` are taken as parameters",
